@@ -7,7 +7,7 @@
    agreement of both entry points with the model is checked by checks/C03b.py.
    Only statements, `exact`, and Print Assumptions in this file. *)
 From Gatery Require Import Bits NodeSemDefs NodeSemBits NodeSemSpec NodeSemSpecArith NodeSemSpecShift
-  FrontendOpsDefs FrontendOpsBits FrontendOpsSpec FrontendOpsArith FrontendOpsMisc.
+  FrontendOpsDefs FrontendOpsBits FrontendOpsSpec FrontendOpsArith FrontendOpsMisc FrontendOpsSlices.
 Import ListNotations.
 
 (* ================= operand normalisation: SignalReadPort::expand / NormalizedWidthOperands ================= *)
@@ -472,6 +472,69 @@ Example op_correct_dyn_ex :
   fe_dynbit (mk_sval TU PNone (bv_of_N 5 4)) (mk_sval TU PNone (bv_of_N 3 2)) = Some (mk_sval TB PNone [B1])
   /\ fe_dynbit (mk_sval TU PNone (bv_of_N 5 4)) (mk_sval TU PNone (bv_of_N 3 6)) = Some (mk_sval TB PNone [BX])
   /\ fe_dynslice 3 (mk_sval TV PNone (bv_of_N 5 21)) (mk_sval TU PNone (bv_of_N 2 3)) = Some (mk_sval TV PNone [B0; B1; BX]).
+Proof. repeat split; vm_compute; reflexivity. Qed.
+
+(* ================= several slices of one object: part / parts, writes through slices, alias caches ================= *)
+
+(* x.part(P, idx) / x.parts(P)[idx] *)
+Theorem op_correct_part : forall p a idx i,
+  is_vec (sv_ty a) = true -> sv_ty idx = TU -> 0 < p -> sv_w a mod p = 0 -> bv_val (sv_bits idx) = Some i ->
+  let pw := sv_w a / p in
+  fe_part p a idx =
+  Some (mk_sval (sv_ty a) (sv_pol a) (if (i <? N.of_nat p)%N then bv_slice (sv_bits a) (N.to_nat i * pw) pw else all_X pw)).
+Proof. exact FrontendOpsSlices.part_spec. Qed.
+Print Assumptions op_correct_part.
+
+Theorem op_correct_part_rejected : forall p a idx, p = 0 \/ sv_w a mod p <> 0 -> fe_part p a idx = None.
+Proof. exact FrontendOpsSlices.part_rejected. Qed.
+Print Assumptions op_correct_part_rejected.
+
+(* alias = value through a static slice: exactly the addressed bits change, nothing else *)
+Theorem op_correct_write_static : forall off w x v,
+  off + w <= length x -> off < length x -> length v = w ->
+  write_static off w x v = Some (firstn off x ++ v ++ skipn (off + w) x).
+Proof. exact FrontendOpsSlices.write_static_spec. Qed.
+Print Assumptions op_correct_write_static.
+
+(* alias = value through x(idx, w) / x.part(P, idx) / x[idx]: the write lands at idx * stride *)
+Theorem op_correct_write_dyn : forall n mul w idx i x v,
+  bv_val idx = Some i -> length v = w ->
+  (forall j, j < n -> j * mul + w <= length x /\ j * mul < length x) ->
+  write_dyn n mul w idx x v =
+  Some (if (i <? N.of_nat n)%N
+        then firstn (N.to_nat i * mul) x ++ v ++ skipn (N.to_nat i * mul + w) x
+        else all_X (length x)).
+Proof. exact FrontendOpsSlices.write_dyn_spec. Qed.
+Print Assumptions op_correct_write_dyn.
+
+(* the alias caches are transparent: in a sequence of read requests on ONE object every request has
+   the value of its own definition, whatever was requested before and in whatever order *)
+Theorem op_correct_slices_transparent : forall fs x aux,
+  is_vec (sv_ty x) = true ->
+  fe_mslice (map SR_read fs) x aux =
+  match all_some (map (fun f => read_form f x aux) fs) with
+  | Some rs => fe_pack (rs ++ [x])
+  | None => None
+  end.
+Proof. exact FrontendOpsSlices.mslice_reads_spec. Qed.
+Print Assumptions op_correct_slices_transparent.
+
+(* requests after a write see the updated object *)
+Theorem op_correct_slices_write_then : forall f k rest x aux v x',
+  is_vec (sv_ty x) = true -> aux_get aux k = Some v -> write_form f x aux v = Some x' ->
+  fe_mslice (SR_write f k :: rest) x aux =
+  (if is_vec (sv_ty x') then mslice_run rest x' aux [] else None).
+Proof. exact FrontendOpsSlices.mslice_write_then. Qed.
+Print Assumptions op_correct_slices_write_then.
+(* 32 bit x = 0xDEADBEEF, 2 bit idx = 2: x.part(4, idx) = 0xAD and x(idx, 8) = 0xBB in both request orders
+   (with a slice cache keyed without the stride the second request returned the first one's alias) *)
+Example op_correct_slices_ex :
+  let x := mk_sval TU PNone (bv_of_N 32 3735928559) in let idx := mk_sval TU PNone (bv_of_N 2 2) in
+  fe_part 4 x idx = Some (mk_sval TU PNone (bv_of_N 8 173)) /\ fe_dynslice 8 x idx = Some (mk_sval TU PNone (bv_of_N 8 187))
+  /\ fe_mslice [SR_read (SF_part 4 0); SR_read (SF_dyn 8 0)] x [idx] = Some (mk_sval TU PNone (bv_of_N 8 173 ++ bv_of_N 8 187 ++ bv_of_N 32 3735928559))
+  /\ fe_mslice [SR_read (SF_dyn 8 0); SR_read (SF_part 4 0)] x [idx] = Some (mk_sval TU PNone (bv_of_N 8 187 ++ bv_of_N 8 173 ++ bv_of_N 32 3735928559))
+  /\ fe_mslice [SR_write (SF_part 4 0) 1; SR_read (SF_dyn 8 0)] x [idx; mk_sval TU PNone (bv_of_N 8 0)]
+     = Some (mk_sval TU PNone (bv_of_N 8 187 ++ bv_of_N 32 3724590831)).                 (* word 2 cleared: 0xDE00BEEF; bits 9..2 still 0xBB *)
 Proof. repeat split; vm_compute; reflexivity. Qed.
 
 (* ================= literals ================= *)
